@@ -53,8 +53,36 @@ def _on_prof(signum, frame):
     raise TaskTimeout()
 
 
+# environment axis of this process ('' = the main pass): 'opt' = interpreter started with -O (assert statements
+# removed, __debug__ False), 'debuglog' = the library's loggers enabled at DEBUG level (what --debug / a DEBUG root
+# logger gives a user). The runner re-runs a slice of every check in a child process per axis.
+AXIS = os.environ.get('VERIF_AXIS', '')
+AXES = ('opt', 'debuglog')
+# slice of the task list a child process runs: (stride, offset); (1, 0) = everything
+SELECT = (1, 0)
+
+
+class _Sink(logging.Handler):
+    """formats every record (so a log call whose arguments do not format is noticed by logging) and drops it"""
+
+    def emit(self, record):
+        record.getMessage()
+
+
+_SINK = _Sink()
+
+
 def quiet_library():
-    """The library formats hexdumps eagerly inside LOGGER.debug; drop everything below CRITICAL."""
+    """The library formats hexdumps eagerly inside LOGGER.debug; drop everything below CRITICAL - except on the
+    'debuglog' axis, where every library logger is enabled at DEBUG and records go to a sink."""
+    if AXIS == 'debuglog':
+        logging.disable(logging.NOTSET)
+        lg = logging.getLogger('cardutil')
+        lg.setLevel(logging.DEBUG)
+        if _SINK not in lg.handlers:
+            lg.addHandler(_SINK)
+        lg.propagate = False
+        return
     logging.disable(logging.CRITICAL)
 
 
@@ -207,6 +235,18 @@ def pmap(fn, tasks, nworkers=None):
     return results
 
 
+def task_ref(idx, tier, seed):
+    ref = {'task_index': idx, 'tier': tier, 'seed': seed}
+    if SELECT != (1, 0):
+        ref['select'] = list(SELECT)
+    return ref
+
+
+def selected(ntasks, select=None):
+    stride, off = select or SELECT
+    return [i for i in range(ntasks) if i % stride == off % stride]
+
+
 def safe_task(fn, prop, tier, seed):
     """wrap run_task(task): an unexpected exception while a task drives the library (never seen on the unchanged
     tree) is recorded as a violation of that task instead of breaking the whole check. Broken still propagates."""
@@ -220,14 +260,14 @@ def safe_task(fn, prop, tier, seed):
             acc = fn(task)
             for sig, (n, dets) in acc.violations.items():
                 for d in dets:
-                    d['_task'] = {'task_index': idx, 'tier': tier, 'seed': seed}
+                    d['_task'] = task_ref(idx, tier, seed)
             return acc
         except Broken:
             raise
         except TaskTimeout:
             _POISONED['v'] = True       # runaway threads / state may survive: do not trust this worker any more
             acc = Acc()
-            acc.viol('%s.no_termination' % prop.lower(), {'task_index': idx, 'tier': tier, 'seed': seed},
+            acc.viol('%s.no_termination' % prop.lower(), task_ref(idx, tier, seed),
                      'task did not finish within %.0f s of CPU time' % task_cpu_limit(tier),
                      'the task completes (a few seconds on the unchanged tree)',
                      'the code under test loops (or became orders of magnitude slower)')
@@ -237,7 +277,7 @@ def safe_task(fn, prop, tier, seed):
             tb = traceback.format_exc().strip().splitlines()
             site = [l.strip() for l in tb if l.strip().startswith('File')][-1:] or ['?']
             acc.viol('%s.unexpected_exception.%s' % (prop.lower(), type(ex).__name__),
-                     {'task_index': idx, 'tier': tier, 'seed': seed}, repr(ex),
+                     task_ref(idx, tier, seed), repr(ex),
                      'the task completes (as it does on the unchanged tree)', site[0][:200])
             return acc
     return run
@@ -305,7 +345,7 @@ def finish(mod, tier, seed, acc, desc, t0, replay_fn=None, extra_cov=None, seque
             continue
         first = details[0]
         # repeatability: a failing case must fail again when re-executed alone
-        if replay_fn is not None and not sig.endswith('.no_termination'):
+        if replay_fn is not None and '.no_termination' not in sig:
             again = replay_fn(first['case'])
             if sig not in again.violations:
                 # not reproducible alone: it may depend on what the library did for EARLIER cases of the same task
